@@ -515,7 +515,7 @@ Lemma seg_force_seal_lock o tw e ec r tw' e' rc twc ec' : R o e ec ->
   aext ec ec' /\ e_fault ec' = None /\
   ((r = rc /\ tw' = twc /\ R o e' ec' /\ (rc = ROk -> ws_index_start tw = 0 -> R (clr o (ws_name tw)) e' ec') /\
     (rc <> ROk \/ ws_index_start tw <> 0 -> e' = e /\ ec' = ec /\ tw' = tw)) \/
-   (rc = ROk /\ ws_index_start tw = 0 /\ r = RErrIO /\ tw' = tw /\ e_fault e' = None /\
+   (rc = ROk /\ ws_index_start tw = 0 /\ ws_n tw <> 0 /\ r = RErrIO /\ tw' = tw /\ e_fault e' = None /\
     (e_disk e' = e_disk e \/
      (drel (clr o (ws_name tw)) (e_disk e') (apply_act (e_disk ec) (force_act tw)) /\
       pfx ec ec' (apply_act (e_disk ec) (force_act tw)))))).
@@ -524,10 +524,10 @@ Proof.
   destruct (0 <? ws_index_start tw) eqn:Eis.
   { intros E1 E2. inversion E1; inversion E2; subst. split; [apply aext_refl|]. split; [apply HR|]. left.
     split; [reflexivity|]. split; [reflexivity|]. split; [exact HR|]. split; [intros _ K; lia|auto]. }
-  destruct (ws_n tw =? 0).
+  destruct (ws_n tw =? 0) eqn:En0.
   { intros E1 E2. inversion E1; inversion E2; subst. split; [apply aext_refl|]. split; [apply HR|]. left.
     split; [reflexivity|]. split; [reflexivity|]. split; [exact HR|]. split; [discriminate|auto]. }
-  assert (His : ws_index_start tw = 0) by lia.
+  assert (His : ws_index_start tw = 0) by lia. assert (Hn0 : ws_n tw <> 0) by lia.
   destruct (force_act_form tw) as (l & b & Ea). rewrite Ea.
   destruct (io_lock_write o (ws_name tw) (ws_off tw) l b e ec HR Hg) as (Ec & Hr).
   set (a := AWrite (ws_name tw) (ws_off tw) l b) in *.
